@@ -30,6 +30,7 @@ import (
 	vconfig "github.com/polynetwork/poly/consensus/vbft/config"
 	"github.com/polynetwork/poly/core/signature"
 	"github.com/polynetwork/poly/core/types"
+	msgpack "github.com/polynetwork/poly/p2pserver/message/msg_pack"
 	p2ptypes "github.com/polynetwork/poly/p2pserver/message/types"
 
 	"verifharness/kit"
@@ -485,7 +486,7 @@ func TestC44(t *testing.T) {
 	r := kit.Start(t, "C44", "exploration")
 	defer r.Finish()
 	r.Rule("10 VBFT message kinds with boundary-biased random fields (half of endorse/commit and all fetch kinds through the real construct*Msg builders; proposals built and signed with the calls of constructBlock): round trip + re-encoding; " +
-		"ConsensusPayload envelope signed like broadcastToAll: round trip (both codecs), 12 single-field mutants and foreign keys; " +
+		"ConsensusPayload envelope signed like broadcastToAll (production shape, random fields, all header fields non-zero): round trip (both codecs), the real send path msg_pack.NewConsensus -> WriteMessage -> ReadMessage (field-wise comparison + Verify at the receiver; also NewConsensusDataReq / NewInv for consensus hashes), 12 single-field mutants and foreign keys; " +
 		"block proposals: 18 single-field mutants × {block, empty block} sent through the wire form, foreign keys, transplanted signatures; distinct = (kind, builder, shape of optional parts) / (mutant name, part, outcome)")
 	r.Assume("values the encodings cannot represent by construction are excluded: Block.Info differing from the header's consensus payload, transaction roots not matching the transactions, duplicate transactions, non-UTF-8 peer ids")
 	r.Assume("ConsensusPayload.PeerId and the cached hash are local fields that are never encoded; they are not content")
@@ -580,6 +581,16 @@ func TestC44(t *testing.T) {
 		if i%2 == 0 {
 			// exactly what broadcastToAll sets
 			p0 = &p2ptypes.ConsensusPayload{Data: data, Owner: sg.acct.PublicKey}
+		} else if i%4 == 1 {
+			// every header field different from its zero value
+			p0.Version |= 1 << uint(g.rng.Intn(32))
+			p0.PrevHash[g.rng.Intn(32)] |= 1 << uint(g.rng.Intn(8))
+			p0.Height |= 1 << uint(g.rng.Intn(32))
+			p0.BookkeeperIndex |= 1 << uint(g.rng.Intn(16))
+			p0.Timestamp |= 1 << uint(g.rng.Intn(32))
+			if len(p0.Data) == 0 {
+				p0.Data = []byte{byte(1 + g.rng.Intn(255))}
+			}
 		}
 		buf := new(bytes.Buffer)
 		if err := p0.SerializeUnsigned(buf); err != nil {
@@ -628,6 +639,77 @@ func TestC44(t *testing.T) {
 		}
 		if !ok {
 			continue
+		}
+		// the real send path: msg_pack.NewConsensus -> WriteMessage (frame) -> ReadMessage
+		{
+			shape := []string{"production-shape", "all-fields-nonzero", "production-shape", "random-fields"}[i%4]
+			r.Eval(1)
+			frame := common.NewZeroCopySink(nil)
+			snd := *p0
+			snd.PeerId = g.rng.Uint64() | 1 // local field of the sender, never encoded
+			var rm p2ptypes.Message
+			var rerr error
+			if p := kit.Catch(func() {
+				if rerr = p2ptypes.WriteMessage(frame, msgpack.NewConsensus(&snd)); rerr == nil {
+					rm, _, rerr = p2ptypes.ReadMessage(bytes.NewReader(frame.Bytes()))
+				}
+			}); p != nil {
+				r.Violation("send-path-panic:Consensus", fmt.Sprint(p), kit.Hex(wire))
+				continue
+			}
+			if rerr != nil {
+				r.Violation("send-path-refused:Consensus", rerr.Error(), kit.Hex(wire))
+				continue
+			}
+			rc, isCons := rm.(*p2ptypes.Consensus)
+			if !isCons {
+				r.Violation("send-path-kind-changed:Consensus", fmt.Sprintf("received %T", rm), kit.Hex(wire))
+				continue
+			}
+			sent := *p0
+			if !sameNorm(&sent, &rc.Cons) {
+				r.Violation("send-path-payload-differs:"+shape, "payload sent through NewConsensus/WriteMessage/ReadMessage arrives changed: "+diffNorm(normOf(&sent), normOf(&rc.Cons)),
+					map[string]string{"signed_payload": kit.Hex(wire), "frame": kit.Hex(frame.Bytes())})
+				continue
+			}
+			if err := rc.Cons.Verify(); err != nil {
+				r.Violation("send-path-signature-rejected:"+shape, "correctly signed payload fails Verify at the receiver: "+err.Error(),
+					map[string]string{"signed_payload": kit.Hex(wire), "frame": kit.Hex(frame.Bytes())})
+				continue
+			}
+			r.Count("send_path_ok", 1)
+			r.Count("send_path_ok:"+shape, 1)
+			r.Distinct("send-path", shape, kindNames[kind])
+			// the other consensus-related constructors: data request and inventory for a payload hash
+			h := g.hash()
+			f2 := common.NewZeroCopySink(nil)
+			if err := p2ptypes.WriteMessage(f2, msgpack.NewConsensusDataReq(h)); err == nil {
+				m2, _, err := p2ptypes.ReadMessage(bytes.NewReader(f2.Bytes()))
+				dr, ok2 := m2.(*p2ptypes.DataReq)
+				if err != nil || !ok2 || dr.Hash != h || dr.DataType != common.CONSENSUS {
+					r.Violation("send-path-differs:ConsensusDataReq", fmt.Sprintf("err=%v got %+v", err, m2), kit.Hex(f2.Bytes()))
+				} else {
+					r.Count("send_path_ok:ConsensusDataReq", 1)
+				}
+			} else {
+				r.Violation("send-path-refused:ConsensusDataReq", err.Error(), nil)
+			}
+			hs := make([]common.Uint256, 1+g.rng.Intn(5))
+			for k := range hs {
+				hs[k] = g.hash()
+			}
+			f3 := common.NewZeroCopySink(nil)
+			if err := p2ptypes.WriteMessage(f3, msgpack.NewInv(msgpack.NewInvPayload(common.CONSENSUS, hs))); err == nil {
+				m3, _, err := p2ptypes.ReadMessage(bytes.NewReader(f3.Bytes()))
+				iv, ok3 := m3.(*p2ptypes.Inv)
+				if err != nil || !ok3 || iv.P.InvType != common.CONSENSUS || !sameNorm(iv.P.Blk, hs) {
+					r.Violation("send-path-differs:ConsensusInv", fmt.Sprintf("err=%v got %+v", err, m3), kit.Hex(f3.Bytes()))
+				} else {
+					r.Count("send_path_ok:ConsensusInv", 1)
+				}
+			} else {
+				r.Violation("send-path-refused:ConsensusInv", err.Error(), nil)
+			}
 		}
 		r.Count("payload_roundtrip_ok", 1)
 		r.Count("payload_honest_verified", 1)
@@ -704,6 +786,11 @@ func TestC44(t *testing.T) {
 		}
 	}
 	r.Require("payload_honest_verified", np/2)
+	r.Require("send_path_ok:all-fields-nonzero", np/5)
+	r.Require("send_path_ok:production-shape", np/3)
+	r.Require("send_path_ok:random-fields", np/5)
+	r.Require("send_path_ok:ConsensusDataReq", np/2)
+	r.Require("send_path_ok:ConsensusInv", np/2)
 	r.Require("payload_mutant_rejected", np*5)
 	for _, n := range []string{"version", "prev-hash", "height", "bookkeeper-index", "timestamp", "data-bit", "owner-other-key", "signature-by-other-key"} {
 		r.Require("payload_mutant_rejected:"+n, np/4)
